@@ -27,7 +27,7 @@ Print Assumptions C10_gen_searchsorted_tie.
    num_reps x ts_length, ts_length >= 1) and its bounds flag is true.  For every Num instance; proofs in C10/TieGen3.v.
    Sparse form: the integer arrays (init states, indices, indptr) are non-negative, as CSR arrays are.
    --------------------------------------------------------------------------------------------- *)
-From QE Require Import Gen.Kernels2 Gen.Kernels3 Base.PivotTie C10.TieGen3.
+From QE Require Import Gen.Kernels2 Gen.Kernels3 Base.GenLemmas C10.TieGen3.
 Theorem C10_tie_generate_sample_paths :
   forall (T : Type) (NT : Num T) (cdfs us : list (list T)) (R TS : nat), rect R (TS - 1) us ->
   forall (inits : list Z) (X : list (list Z)), length inits = R -> (1 <= TS)%nat ->
